@@ -21,6 +21,9 @@ pub struct SinglePatternMatcher<K, P, I> {
     host_indexing: I,
     /// The bindings that must be present in the matches
     requested_bindings: HashSet<K>,
+    /// The bindings requested by [`Pattern::required_bindings`] that no
+    /// constraint binds, prerequisites first
+    extra_bindings: Vec<K>,
 }
 
 impl<P, D> PortMatcher<D>
@@ -60,20 +63,26 @@ impl<P, I: IndexingScheme> SinglePatternMatcher<Key<I>, P, I> {
         indexing: I,
     ) -> Result<Self, PT::Error> {
         let constraints = pattern.try_to_constraint_vec()?;
-        let requested_bindings = indexing
-            .all_missing_bindings(
-                constraints
-                    .iter()
-                    .flat_map(|c| c.required_bindings().iter())
-                    .copied(),
-                [],
-            )
+        let constraint_bindings = indexing.all_missing_bindings(
+            constraints
+                .iter()
+                .flat_map(|c| c.required_bindings().iter())
+                .copied(),
+            [],
+        );
+        let extra_bindings = indexing.all_missing_bindings(
+            pattern.required_bindings().unwrap_or_default(),
+            constraint_bindings.iter().copied(),
+        );
+        let requested_bindings = constraint_bindings
             .into_iter()
+            .chain(extra_bindings.iter().copied())
             .collect();
         Ok(Self {
             constraints,
             host_indexing: indexing,
             requested_bindings,
+            extra_bindings,
         })
     }
 }
@@ -103,14 +112,22 @@ impl<K: IndexKey, P, I: IndexingScheme> SinglePatternMatcher<K, P, I> {
         let mut final_bindings = Vec::new();
         while let Some((constraints, mut bindings)) = candidates.pop_front() {
             let [constraint, remaining @ ..] = constraints else {
-                bindings.retain_keys(&self.requested_bindings);
-                if self
-                    .requested_bindings
-                    .iter()
-                    .all(|k| bindings.get(k).is_some())
-                {
-                    // We have a complete match
-                    final_bindings.push(bindings);
+                // Bind the keys requested by the pattern that no constraint uses
+                let completed = if self.extra_bindings.is_empty() {
+                    vec![bindings]
+                } else {
+                    host.bind_all(bindings, self.extra_bindings.iter().copied(), false)
+                };
+                for mut bindings in completed {
+                    bindings.retain_keys(&self.requested_bindings);
+                    if self
+                        .requested_bindings
+                        .iter()
+                        .all(|k| bindings.get(k).is_some())
+                    {
+                        // We have a complete match
+                        final_bindings.push(bindings);
+                    }
                 }
                 continue;
             };
